@@ -346,6 +346,12 @@ func (s *Swarm[T]) handleAsk(ctx context.Context, stream quic.Stream, srcAddr, d
 		return err
 	}
 	log.Debug("received ask request", logctx.Int("len", n))
+	// serve only checks the whitelist for sessions the peer opened; a session this node dialled carries
+	// the peer's requests too
+	if !s.allowFunc(srcAddr) {
+		stream.CancelWrite(0)
+		return nil
+	}
 	m := p2p.Message[Addr[T]]{
 		Dst:     dstAddr,
 		Src:     srcAddr,
@@ -376,6 +382,11 @@ func (s *Swarm[T]) handleTells(ctx context.Context, sess quic.Connection, srcAdd
 			data, err := io.ReadAll(lr)
 			if err != nil {
 				logctx.Errorln(ctx, err)
+				return
+			}
+			// serve only checks the whitelist for sessions the peer opened; a session this node dialled
+			// carries the peer's messages too
+			if !s.allowFunc(srcAddr) {
 				return
 			}
 			m := p2p.Message[Addr[T]]{
